@@ -18,7 +18,8 @@ RULE = ("calibrate_thermal called directly and through both reader families: all
         "and with the Coq model (exact smoothing, float radiance chain). A case = (spacecraft, channel, pass); "
         "non-trivial = distinct case with a gap, an invalid reading, a non-zero residue or a length != 3")
 ASSUME = ["float64 vs exact arithmetic: relative 1e-9 on brightness temperatures (measured), NaN pattern exact except within 1e-6 K of 170/350 K",
-          "numpy interp / convolve / median / polyval as modelled", "exp and ln of the correspondence are series approximations (1e-13)"]
+          "numpy interp / convolve / median / polyval as modelled", "exp and ln of the correspondence are series approximations (1e-13)",
+          "a 3b scene count within 1e-6 of the smoothed space count is not compared (the sign of a difference at rounding level decides NaN vs value)"]
 TB = ["coqc 8.16.1 kernel; primitive floats (PrimFloat) only inside the correspondence files, never in a theorem",
       "translator/gen.py (Gen_Coeffs)", "correspondence check_thermal evaluated in Coq"]
 
@@ -106,6 +107,8 @@ def run(res, tier, seed):
                 g, e = float(out[i, p]), exp[i][p]
                 if math.isnan(g) != math.isnan(e):
                     near = min(abs(x - b) for x in (g if not math.isnan(g) else e,) for b in (170.0, 350.0)) < 1e-6
+                    # a scene count equal to the smoothed space count: the sign of a difference at rounding level decides
+                    near = near or abs(float(counts[i, p]) - smoothed[2][i]) < 1e-6
                     if not near:
                         bad = dict(ctx, line_index=i, count=float(counts[i, p]), got=g, expected=e)
                 elif not math.isnan(g):
